@@ -145,9 +145,12 @@ def finish(chk: Checker, t0: float, seed: int, extra_cov: dict | None = None) ->
 
     for o, k in kn:
         print(f"KNOWN-FINDING: property={chk.prop} {o.rule} {o.func} `{o.construct}` -- {k.get('what', o.why)}")
-    replay = os.path.join(EVIDENCE_DIR, f"{chk.prop}.violations.json")
+    # evidence describes /repo itself: runs against another tree (self-test, seeded variants) write elsewhere
+    foreign = os.path.realpath(chk.pm.repo) != os.path.realpath("/repo") or bool(os.environ.get("XSA_NO_EVIDENCE"))
+    ev_dir = EVIDENCE_DIR if not foreign else os.path.join(os.environ.get("TMPDIR", "/tmp"), "xsa_foreign_evidence")
+    replay = os.path.join(ev_dir, f"{chk.prop}.violations.json")
     if new_u:
-        os.makedirs(EVIDENCE_DIR, exist_ok=True)
+        os.makedirs(ev_dir, exist_ok=True)
         with open(replay, "w") as f:
             json.dump([o.as_dict() for o in new_u], f, indent=1)
         for o in new_u:
@@ -210,8 +213,8 @@ def finish(chk: Checker, t0: float, seed: int, extra_cov: dict | None = None) ->
         "wall_s": round(time.time() - t0, 3),
         "violations": len(new_u),
     }
-    os.makedirs(EVIDENCE_DIR, exist_ok=True)
-    with open(os.path.join(EVIDENCE_DIR, f"{chk.prop}.json"), "w") as f:
+    os.makedirs(ev_dir, exist_ok=True)
+    with open(os.path.join(ev_dir, f"{chk.prop}.json"), "w") as f:
         json.dump(ev, f, indent=1, default=str)
     n_ok = len(chk.obligations) - len(viol)
     print(
